@@ -328,6 +328,14 @@ func fullName(fn *ssa.Function) string {
 }
 
 func (e *Engine) callFunc(st *state, fr *frame, in ssa.CallInstruction, fn *ssa.Function, args, free []*Val) []callRes {
+	// a method value (`w := buf.Write`): go/ssa's bound-method wrapper calls the method on the receiver it captured
+	if strings.HasSuffix(fn.Name(), "$bound") && len(fn.FreeVars) == 1 && len(free) == 1 {
+		if m, ok := fn.Object().(*types.Func); ok && m != nil {
+			if target := e.P.Prog.FuncValue(m); target != nil {
+				return e.callFunc(st, fr, in, target, append([]*Val{free[0]}, args...), nil)
+			}
+		}
+	}
 	name := fullName(fn)
 	if res, ok := e.model(st, fr, in, fn, name, args); ok {
 		return res
@@ -1106,6 +1114,15 @@ func (e *Engine) model(st *state, fr *frame, in ssa.CallInstruction, fn *ssa.Fun
 				e.addEvent(st, fr, &Event{Kind: EvWriteInt, Buf: args[0], IntType: ib.Type, Order: ord, Src: ib.Args[0], Size: mkInt(sz)}, in)
 			}
 			return one(st, tuple(mkInt(total), mkNil(errT))), true
+		}
+		// a one-byte literal []byte{v}: the number v in one byte
+		if lit := stripCT(src); lit != nil && lit.Op == "arraylit" && len(lit.Args) == 1 && lit.Args[0] != nil && lit.Args[0].Type != nil {
+			if sz, okS := fixedSize(lit.Args[0].Type); okS && sz == 1 && !isZero(lit.Args[0]) {
+				if bt, isB := typeUnder(lit.Args[0].Type).(*types.Basic); isB && bt.Info()&types.IsInteger != 0 {
+					e.addEvent(st, fr, &Event{Kind: EvWriteInt, Buf: args[0], IntType: lit.Args[0].Type, Order: "", Src: lit.Args[0], Size: mkInt(1)}, in)
+					return one(st, tuple(mkInt(1), mkNil(errT))), true
+				}
+			}
 		}
 		// a literal run of 2, 4 or 8 zero bytes: room reserved for a number (patched later) – a zero placeholder
 		// without byte order, like the gap of a staged array
